@@ -1431,6 +1431,14 @@ impl RrsigValidity {
 
         // Section 3.1.5 of RFC4034 states that 'all comparisons involving these fields MUST use
         // "Serial number arithmetic", as defined in RFC1982'
+        //
+        // The validity period itself has to be expressible in that arithmetic: an RRSIG whose
+        // Inception is not before or at its Expiration (an empty period, or one of exactly 2^31
+        // seconds, for which the comparison is undefined) can never be valid.
+        if !(sig_input.sig_inception <= sig_input.sig_expiration) {
+            return Self::ExpiredRrsig;
+        }
+
         if !(
             // "The validator's notion of the current time MUST be less than or equal to the time
             // listed in the RRSIG RR's Expiration field"
